@@ -547,10 +547,9 @@ def bucket(case, obs):
         return "raised:" + obs["exc"]
     cut = any(any(len(w) > c[1] for w in c[0].split()) for c in obs["wraps"])
     styled = any("<" in c for r in _all_rows(case) for c in r)
-    return "%s|%s|%dcol|%s|%s%s" % (case["style"] + ("+hfmt" if case.get("hfmt") else ""),
-                                    "hdr" if case["header"] is not None else "nohdr", case["n"],
-                                    "cut" if cut else ("wrap" if obs["wraps"] else "fit"),
-                                    "ansi" if case["ansi"] else "plain", "|styled" if styled else "")
+    return "%s|%s|%s%s" % (case["style"] + ("+hfmt" if case.get("hfmt") else ""),
+                           "hdr" if case["header"] is not None else "nohdr",
+                           "cut" if cut else ("wrap" if obs["wraps"] else "fit"), "|styled" if styled else "")
 
 
 # --------------------------------------------------------------------------- known finding D28
